@@ -11,7 +11,7 @@ RULE = ("grammar workload of C08 (profiles forcing the suffix cache, the fast pa
         "result is extracted, its bounded language computed by the reference AND by the library's own contains, "
         "and its shape predicates checked; non-trivial = bounded language has >=2 words and the transformation "
         "changed the production set; distinct = (grammar digest, order signature)")
-ASSUMPTIONS = ["variable and terminal value sets are disjoint",
+ASSUMPTIONS = ["variable and terminal symbol sets are disjoint; in part of the cases one variable and one terminal carry the same value",
                "bounded comparison: all words of length <= 5 (<=2 terminals) or <= 4 (3 terminals)",
                "remove_epsilon and to_normal_form may drop the empty word (as documented); nothing else"]
 
